@@ -142,7 +142,7 @@ def run_handshake(case):
 def run_frames(case):
     obs = Obs()
     data = case["data"]
-    driver, cf = case.get("driver", "data_frame"), case.get("cf", False) and case.get("driver") != "recv"
+    driver, cf = case.get("driver", "data_frame"), case.get("cf", False) and case.get("driver") not in ("recv", "next", "iter")
     at_end = case.get("at_end", "eof")
     ws, fs = make_ws(split_at(data, case.get("cuts", [])) if data else [], at_end=at_end)
     fs.budget = 5000 + 4 * len(data)
@@ -317,7 +317,7 @@ def frame_cases(draw):
         elif mut == "text-bytes":
             data += rm.encode_frame(1, 1, draw(st.binary(max_size=12)))
         data = bytes(data)
-    driver = draw(st.sampled_from(["data_frame", "data", "recv", "frame"]))
+    driver = draw(st.sampled_from(["data_frame", "data", "recv", "frame", "next", "iter"]))
     cuts = draw(st.lists(st.integers(1, max(1, len(data))), max_size=5))
     return {"phase": "frames", "data": data, "cuts": sorted(set(cuts)), "driver": driver, "cf": draw(st.booleans()),
             "at_end": draw(st.sampled_from(["eof", "eof", "timeout"])), "mut": mut}
